@@ -66,6 +66,8 @@ class GetService(DPWSPortTypeBase):
                     for handle in requested_handles:
                         state_containers.extend(self._mdib.states.descriptor_handle.get(handle, []))
 
+                # a state shall only be included once, even if it is selected by multiple handles
+                state_containers = list({id(st): st for st in state_containers}.values())
                 self._logger.debug('_on_get_md_state requested Handles:{} found {} states', requested_handles,
                                    len(state_containers))
 
